@@ -1,12 +1,56 @@
-"""C17 - bounded stand-in tier (native/b_c17.py through props/_qb.py)."""
+"""C17: string VCs generated from the real AST of edifify_names.py (code-point arrays, z3/cvc5) + bounded stand-in."""
+import json, sys
 from props import _qb
-LEVEL = 'exploration'
+from vlib.report import VERIF, REPO
+from vlib.native import run_native
+LEVEL = 'other'
 PID = 'C17'
 
 
 def run(rep, tier, seed):
+    sys.path.insert(0, VERIF); sys.setrecursionlimit(20000)
+    from specs import edifify
+    rep.explanation = ('"every identifier the EDIF writer assigns is legal": contracts on EdififyNames._length_fix/_characters_good/_characters_fix/'
+                       '_conflicts_fix/make_valid proved for ALL names (any length, printable ASCII) from the real AST with strings as code-point arrays '
+                       '(P); "differs ignoring case from all siblings" is proved relative to the uninterpreted sibling scan _conflicts_good, whose loop '
+                       'and the rename bookkeeping, the write/read-back of whole files and original-name recovery are covered by the bounded stand-in only')
+    res, shas, deg = edifify.run(REPO)
+    rep.functions.update(shas)
+    for fn, why in deg.items(): rep.degrade('EdififyNames.' + fn, why)
+    seen = set()
+    for name, status, t, detail, be in res:
+        model = be if isinstance(be, dict) else None
+        rep.p(name, status, be if isinstance(be, str) and be else 'z3', t, name.split('/')[1], detail if status != 'discharged' else None)
+        if status == 'failed' and name not in seen:
+            seen.add(name)
+            fn = name.split('/')[1].split('.')[0]
+            if model:
+                out = run_native('replay_edifify.py', {'function': fn, 'inputs': model})
+                probs = out.get('problems') if isinstance(out, dict) else None
+                if probs:
+                    rep.violation(name, 'obligation %s refuted; counterexample replayed on the real code: %s(%r...) -> %s' % (
+                        name, fn, {k: v[:30] for k, v in model.items()}, '; '.join(probs)),
+                        replay={'kind': 'string-model', 'obligation': name, 'function': fn, 'inputs': model, 'native': probs, 'solver_output': detail[:600]})
+                    continue
+            rep.violation(name, 'obligation %s is no longer discharged (%s)' % (name, detail[:200]),
+                          replay={'kind': 'obligation', 'obligation': name, 'solver_output': detail[:1500]}, nfi=True)
+    if not res: rep.error('zero obligations generated for C17')
+    rep.trusted = ['pyvc/strvc.py (string VC generator), z3 5.1 / cvc5 1.0.3 / z3 4.8.12']
+    rep.assumptions = ['characters are ASCII 32..126 (the property quantifies over printable names); str.isalpha/isalnum/lower modelled as the ASCII predicates',
+                       'integers mathematical; CPython slice clamping as encoded in pyvc/strvc.py',
+                       "the regex `_sdn_[0-9]+_$` is characterised positionally (unique suffix match); int()/str() uninterpreted up to 'str(n>=0) is a non-empty digit string'",
+                       '_conflicts_good is used through an uninterpreted predicate (its sibling loop is only exercised by the bounded tier)',
+                       '_conflicts_fix: partial correctness (its recursion is used through its own contract); termination not proved']
     _qb.run(rep, PID, tier, seed)
 
 
 def replay(path):
+    d = json.load(open(path)); r = d.get('replay') or {}
+    if r.get('kind') == 'string-model':
+        out = run_native('replay_edifify.py', {'function': r['function'], 'inputs': r['inputs']})
+        if out.get('problems'):
+            print('REPLAY reproduces on the real code: %s' % '; '.join(out['problems'])); print('VIOLATION property=C17 replay=%s' % path); return 1
+        print('REPLAY does not reproduce on this tree'); return 0
+    if r.get('kind') == 'obligation':
+        print('replay file names obligation %s; solver output: %s' % (r.get('obligation'), str(r.get('solver_output'))[:300])); return 0
     return _qb.replay(path, PID)
